@@ -48,7 +48,7 @@ func init() {
 			ruleAcceptedLinkIsCreated("C02.created"),
 			// each entry's header is written by the callback invocation that made it: a header kept for later (directories
 			// held back until something below them is packed) is lost when nothing comes to release it
-			ruleFreshHeaderPerEntry("C02.ownheader"),
+			ruleFreshHeaderPerEntry("C02.ownheader"), ruleNoNameLengthLimit("C02.namelength"),
 			aliasRuleFiltered(ruleC01Walk, "C01.walk", "C02.walked", 1, func(o Oblig) bool { return strings.Contains(o.Key, "walked path") }),
 			// the name test refuses what climbs out of the destination and nothing else: a test on the first bytes
 			// instead of the first segment refuses the names ..data and ..2024 that Pack writes
@@ -988,6 +988,22 @@ func ruleMeta(id string) func(*Checker) {
 				fa, fm := fieldsIn(args[1]), fieldsIn(args[2])
 				c.check(only(fa, "OriginalAccessTime"), id, fn, "Chtimes atime", pos, "atime from OriginalAccessTime", fmt.Sprintf("access-time argument comes from %v", keys(fa)))
 				c.check(only(fm, "OriginalModTime"), id, fn, "Chtimes mtime", pos, "mtime from OriginalModTime", fmt.Sprintf("modification-time argument comes from %v (swapped or constant?)", keys(fm)))
+				// ... as recorded: a time passed through Round, Truncate, Add, Local … is another time (an archive in
+				// the PAX format records fractions of a second)
+				for i, what := range []string{"", "atime", "mtime"} {
+					if i == 0 {
+						continue
+					}
+					computed := ""
+					for w := range p.backSlice(args[i], 2) {
+						if cl, ok := w.(*ssa.Call); ok {
+							if o := calleeObj(cl); o != nil && objPkgPath(o) == "time" {
+								computed = o.Name()
+							}
+						}
+					}
+					c.check(computed == "", id, fn, "Chtimes "+what+" as recorded", pos, "the recorded time is applied as it is", "the time applied is the recorded one passed through time."+computed+": what the entry gets is not the time the archive records")
+				}
 			case "golang.org/x/sys/unix.Lutimes":
 				// elements of the Timeval slice: index 0 atime, 1 mtime
 				el := timevalElems(s.Call)
